@@ -64,7 +64,7 @@ class History(Driver):
                'cat_loop', 'item_loop', 'all_loops', 'prune', 'get_value', 'get_value', 'set_value', 'set_value',
                'set_value', 'set_value', 'remove_item', 'remove_item', 'loop_category', 'set_category', 'loop_names',
                'add_item', 'add_item', 'add_packet', 'add_packet', 'add_packet', 'add_packet', 'loop_destroy',
-               'iterate', 'iterate', 'parse_into', 'checkpoint', 'new_cif', 'scalar_cycle', 'recreate_pruned',
+               'iterate', 'iterate', 'parse_into', 'parse_headerless', 'checkpoint', 'new_cif', 'scalar_cycle', 'recreate_pruned',
                'stale_loop', 'stale_container']
         op = rng.choice(ops)
         self.ctx.count('calls')
@@ -358,6 +358,8 @@ class History(Driver):
                 L.container_free(ch)
         elif op == 'parse_into':
             self.parse_into(ci)
+        elif op == 'parse_headerless':
+            self.parse_headerless(ci)
         elif op == 'checkpoint':
             self.check_state(ci, 'state-at-checkpoint', 'checkpoint')
         elif op == 'scalar_cycle':
@@ -737,6 +739,40 @@ class History(Driver):
         self.ctx.count('stale_container_cases')
         self.ctx.add('stale_container_results', '%s:%d' % (which, rc))
 
+    def parse_headerless(self, ci):
+        """data that precede any block header go, by the documented recovery, into a block with the empty code - a
+        code cif_create_block() refuses.  From then on that block is an object of this CIF like any other: listed,
+        looked up under its code, given more items by the next such parse, taken into account by every later call"""
+        from .. import parsing
+        L, rng = self.L, self.rng
+        p, m = self.cifs[ci]
+        b = m.find_block('')
+        sl = b.scalar_loop() if b is not None else None
+        if sl is not None and (sl.ghost or not sl.packets):
+            return      # (the recorded finding about a scalar loop that lost its packet: not exercised again here)
+        k = self.ctx.counters.get('parse_serial', 0) + 1
+        self.ctx.counters['parse_serial'] = k
+        nm = '_hl%d.%s' % (k, rng.choice(['Aa', 'b', 'X']))
+        val = 'h%d' % rng.randint(0, 99)
+        text = '#\\#CIF_2.0\n%s %s\n' % (nm, val)
+        res = parsing.parse(L, text.encode('utf-8'), parsing.make_opts(), p, 'accept')
+        codes = [e[0] for e in res.errors]
+        self.note('cif_parse(header-less text into) -> %d, errors %r' % (res.rc, codes))
+        self.expect('cif_parse', res.rc, {CIF_OK}, text, pre='headerless')
+        if codes != [CIF_NO_BLOCK_HEADER]:
+            raise Mismatch('model:cif_parse:headerless:errors', 'header-less text parsed into CIF %d: errors %r reported, expected [%d]' % (ci, codes, CIF_NO_BLOCK_HEADER))
+        if b is None:
+            b = CM.MContainer('')
+            m.blocks.append(b)
+        rcs, commit = CM.op_set_value(b, nm, ('char', val, False))
+        commit()
+        # (the parser drops the loops without data of every container it closes)
+        rcs, commit = CM.op_prune(b)
+        commit()
+        self.check_tx(ci, 'cif_parse')
+        self.check_state(ci, 'state-after-parse', 'cif_parse(header-less into existing)')
+        self.ctx.count('headerless_parses_into_existing')
+
     def parse_into(self, ci):
         """parse a small well-formed document with fresh block codes into the existing CIF"""
         L, rng = self.L, self.rng
@@ -936,7 +972,7 @@ def coverage(res, n):
         iterations=res.count('iterations'), scalar_cycles=res.count('scalar_cycles'),
         recreate_after_prune=res.count('recreate_after_prune'), stale_handle_cases=res.count('stale_handle_cases'), stale_container_cases=res.count('stale_container_cases'), wide_loops_completed=res.count('wide_loops_completed'),
             stale_container_results=sorted(res.sets.get('stale_container_results', ())),
-        parses_into_existing=res.count('parses_into_existing'),
+        parses_into_existing=res.count('parses_into_existing'), headerless_parses_into_existing=res.count('headerless_parses_into_existing'),
         operation_result_matrix=sorted(res.sets.get('op_rc', ())),
         failing_call_kinds=sorted(res.sets.get('failed_kinds', ())), crashes=res.crashes)
 
